@@ -1,4 +1,5 @@
 import collections.abc
+import keyword
 from collections.abc import Mapping, Set
 from contextlib import AbstractContextManager, contextmanager, nullcontext
 from dataclasses import dataclass, replace
@@ -328,7 +329,10 @@ class BuiltinModelLoaderGen(ModelLoaderGen):
 
                 value = state.v_field(field)
                 if param.kind == ParamKind.KW_ONLY or has_skipped_params:
-                    constructor_builder(f"{param.name}={value},")
+                    if keyword.iskeyword(param.name):  # e.g. TypedDict with key ``class``
+                        constructor_builder(f"**{{{param.name!r}: {value}}},")
+                    else:
+                        constructor_builder(f"{param.name}={value},")
                 elif param.kind == ParamKind.POS_ONLY and has_skipped_params:
                     raise ValueError(
                         "Can not generate consistent constructor call,"
